@@ -1,0 +1,242 @@
+//! Verification hooks (feature `verif_hooks`). Never compiled by default.
+use std::collections::{HashMap, HashSet};
+use std::sync::atomic::{AtomicU64, AtomicUsize, Ordering};
+
+static NEXT_HEAP_ID: AtomicU64 = AtomicU64::new(1);
+static STRESS_K: AtomicUsize = AtomicUsize::new(0);
+static STRESS_CTR: AtomicUsize = AtomicUsize::new(0);
+pub static FORCED_COLLECTIONS: AtomicUsize = AtomicUsize::new(0);
+pub static FREED_OBJECTS: AtomicUsize = AtomicUsize::new(0);
+
+pub fn next_heap_id() -> u64 {
+    NEXT_HEAP_ID.fetch_add(1, Ordering::Relaxed)
+}
+
+/// Collect at every `k`-th `check_collect` (0 disables)
+pub fn set_gc_stress(k: usize) {
+    STRESS_K.store(k, Ordering::SeqCst);
+}
+
+pub fn stress_due() -> bool {
+    let k = STRESS_K.load(Ordering::Relaxed);
+    if k == 0 {
+        return false;
+    }
+    let n = STRESS_CTR.fetch_add(1, Ordering::Relaxed) + 1;
+    if n % k == 0 {
+        FORCED_COLLECTIONS.fetch_add(1, Ordering::Relaxed);
+        true
+    } else {
+        false
+    }
+}
+
+pub fn on_free() {
+    FREED_OBJECTS.fetch_add(1, Ordering::Relaxed);
+}
+
+#[derive(Debug, Clone)]
+pub struct Edge {
+    /// `None` for a root edge
+    pub from: Option<(usize, u64)>,
+    /// heap whose roots (or object) hold the pointer
+    pub holder_heap: u64,
+    pub to: usize,
+    /// `None` if the target is not in any live list (dangling)
+    pub to_heap: Option<u64>,
+    pub type_name: &'static str,
+}
+
+#[derive(Debug, Default)]
+pub struct Visitor {
+    /// address -> owning heap, for every object in every heap of the vm
+    pub live: HashMap<usize, u64>,
+    pub visited: HashSet<usize>,
+    pub stack: Vec<(usize, u64)>,
+    pub root_heap: u64,
+    pub edges: usize,
+    pub bad: Vec<Edge>,
+    /// heap -> parent heap (global heap has no entry)
+    pub parent: HashMap<u64, u64>,
+}
+
+impl Visitor {
+    fn may_point(&self, mut holder: u64, target: u64) -> bool {
+        loop {
+            if holder == target {
+                return true;
+            }
+            match self.parent.get(&holder) {
+                Some(p) => holder = *p,
+                None => return false,
+            }
+        }
+    }
+
+    pub(crate) fn edge(&mut self, to: usize, to_heap: Option<u64>, type_name: &'static str) {
+        self.edges += 1;
+        let from = self.stack.last().cloned();
+        let holder_heap = from.map_or(self.root_heap, |(_, h)| h);
+        let ok = match to_heap {
+            None => false,
+            Some(h) => self.may_point(holder_heap, h),
+        };
+        if !ok {
+            self.bad.push(Edge { from, holder_heap, to, to_heap, type_name });
+        }
+    }
+}
+
+#[derive(Debug, Default)]
+pub struct HeapReport {
+    pub heaps: usize,
+    pub live_objects: usize,
+    pub reachable_objects: usize,
+    pub edges: usize,
+    pub bad: Vec<Edge>,
+}
+
+// ---- H6: memory accounting peaks -------------------------------------------------------------
+
+/// Largest `allocated_memory` seen right after a limit-checked allocation
+pub static ALLOC_PEAK: AtomicUsize = AtomicUsize::new(0);
+/// Number of limit-checked allocations after which `allocated_memory > memory_limit`
+pub static ALLOC_OVER_LIMIT: AtomicUsize = AtomicUsize::new(0);
+/// Largest excess (`allocated_memory - memory_limit`) seen
+pub static ALLOC_OVER_LIMIT_MAX: AtomicUsize = AtomicUsize::new(0);
+pub static ALLOCATIONS: AtomicUsize = AtomicUsize::new(0);
+
+thread_local! {
+    static IGNORING_LIMIT: std::cell::Cell<bool> = std::cell::Cell::new(false);
+}
+
+pub struct IgnoreLimitScope(());
+
+/// Marks allocations made through `alloc_ignore_limit` (error messages) so that they are not
+/// judged against the limit
+pub fn ignore_limit_scope() -> IgnoreLimitScope {
+    IGNORING_LIMIT.with(|c| c.set(true));
+    IgnoreLimitScope(())
+}
+
+impl Drop for IgnoreLimitScope {
+    fn drop(&mut self) {
+        IGNORING_LIMIT.with(|c| c.set(false));
+    }
+}
+
+pub fn on_alloc(allocated: usize, limit: usize) {
+    if IGNORING_LIMIT.with(|c| c.get()) {
+        return;
+    }
+    ALLOCATIONS.fetch_add(1, Ordering::Relaxed);
+    ALLOC_PEAK.fetch_max(allocated, Ordering::Relaxed);
+    if allocated > limit {
+        ALLOC_OVER_LIMIT.fetch_add(1, Ordering::Relaxed);
+        ALLOC_OVER_LIMIT_MAX.fetch_max(allocated - limit, Ordering::Relaxed);
+    }
+}
+
+// ---- H7: value stack peaks -------------------------------------------------------------------
+
+/// Largest absolute value-stack length seen at an instruction boundary or at function entry
+pub static STACK_PEAK: AtomicUsize = AtomicUsize::new(0);
+/// Instruction boundaries at which the executing frame held more slots than the function's
+/// statically computed `max_stack_size`
+pub static FRAME_OVER_STATIC: AtomicUsize = AtomicUsize::new(0);
+/// Instruction boundaries / frame entries at which the absolute length exceeded the limit
+pub static STACK_OVER_LIMIT: AtomicUsize = AtomicUsize::new(0);
+pub static STACK_OVER_LIMIT_MAX: AtomicUsize = AtomicUsize::new(0);
+pub static INSTRUCTIONS: AtomicU64 = AtomicU64::new(0);
+
+pub fn on_instr(abs_len: usize, frame_len: usize, static_max: usize, limit: usize) {
+    INSTRUCTIONS.fetch_add(1, Ordering::Relaxed);
+    STACK_PEAK.fetch_max(abs_len, Ordering::Relaxed);
+    if frame_len > static_max {
+        FRAME_OVER_STATIC.fetch_add(1, Ordering::Relaxed);
+    }
+    if abs_len > limit {
+        STACK_OVER_LIMIT.fetch_add(1, Ordering::Relaxed);
+        STACK_OVER_LIMIT_MAX.fetch_max(abs_len - limit, Ordering::Relaxed);
+    }
+}
+
+pub fn on_frame(abs_len: usize, limit: usize) {
+    STACK_PEAK.fetch_max(abs_len, Ordering::Relaxed);
+    if abs_len > limit {
+        STACK_OVER_LIMIT.fetch_add(1, Ordering::Relaxed);
+        STACK_OVER_LIMIT_MAX.fetch_max(abs_len - limit, Ordering::Relaxed);
+    }
+}
+
+pub fn reset_counters() {
+    for c in [
+        &FORCED_COLLECTIONS,
+        &FREED_OBJECTS,
+        &ALLOC_PEAK,
+        &ALLOC_OVER_LIMIT,
+        &ALLOC_OVER_LIMIT_MAX,
+        &ALLOCATIONS,
+        &STACK_PEAK,
+        &FRAME_OVER_STATIC,
+        &STACK_OVER_LIMIT,
+        &STACK_OVER_LIMIT_MAX,
+    ] {
+        c.store(0, Ordering::SeqCst);
+    }
+    INSTRUCTIONS.store(0, Ordering::SeqCst);
+}
+
+// ---- H8: scheduling points -------------------------------------------------------------------
+
+static SCHED_SEED: AtomicU64 = AtomicU64::new(0);
+static SCHED_LOG: std::sync::Mutex<Vec<(&'static str, u64)>> = std::sync::Mutex::new(Vec::new());
+pub static SCHED_POINTS: AtomicUsize = AtomicUsize::new(0);
+
+/// 0 disables perturbation (and logging)
+pub fn set_sched_seed(seed: u64) {
+    SCHED_SEED.store(seed, Ordering::SeqCst);
+}
+
+fn thread_tag() -> u64 {
+    use std::hash::{Hash, Hasher};
+    let mut h = std::collections::hash_map::DefaultHasher::new();
+    std::thread::current().id().hash(&mut h);
+    h.finish()
+}
+
+/// Called only between critical sections, where the real code can already be pre-empted
+pub fn sched_point(name: &'static str) {
+    let seed = SCHED_SEED.load(Ordering::Relaxed);
+    if seed == 0 {
+        return;
+    }
+    let n = SCHED_POINTS.fetch_add(1, Ordering::Relaxed) as u64;
+    let tag = thread_tag();
+    if let Ok(mut log) = SCHED_LOG.lock() {
+        if log.len() < 1 << 16 {
+            log.push((name, tag));
+        }
+    }
+    // splitmix64 of (seed, n, thread)
+    let mut z = seed
+        .wrapping_add(n.wrapping_mul(0x9E3779B97F4A7C15))
+        .wrapping_add(tag);
+    z = (z ^ (z >> 30)).wrapping_mul(0xBF58476D1CE4E5B9);
+    z = (z ^ (z >> 27)).wrapping_mul(0x94D049BB133111EB);
+    z ^= z >> 31;
+    match z % 8 {
+        0 | 1 | 2 => std::thread::yield_now(),
+        3 => {
+            for _ in 0..(z >> 8) % 2000 {
+                std::hint::spin_loop();
+            }
+        }
+        4 => std::thread::sleep(std::time::Duration::from_micros((z >> 8) % 200)),
+        _ => (),
+    }
+}
+
+pub fn take_sched_log() -> Vec<(&'static str, u64)> {
+    std::mem::take(&mut *SCHED_LOG.lock().unwrap())
+}
